@@ -319,11 +319,8 @@ def rule_row_shape(ctx: Ctx, repo: Repo) -> None:
 
 def rule_hidden_builtins(ctx: Ctx, repo: Repo) -> None:
     mod = repo.module(ENC)
-    tbl = mod.constants.get("_HIDDEN_BUILTIN_TYPES")
-    if tbl is None and "_HIDDEN_BUILTIN_TYPES" in mod.imports:
-        m2, _, n2 = mod.imports["_HIDDEN_BUILTIN_TYPES"].rpartition(".")
-        if m2 in repo.modules:
-            tbl = repo.modules[m2].constants.get(n2)  # the table lives in another module of the package
+    from .common import follow_constant
+    tbl = follow_constant(repo, mod, "_HIDDEN_BUILTIN_TYPES")  # the table may live in another module of the package, under another name
     if not isinstance(tbl, ast.Dict):
         raise AnalysisError("_HIDDEN_BUILTIN_TYPES is not a dict literal")
     tymod = repo.module("monkeytype.typing")
@@ -331,7 +328,7 @@ def rule_hidden_builtins(ctx: Ctx, repo: Repo) -> None:
     for k, v in zip(tbl.keys, tbl.values):
         n += 1
         name = dotted(v)
-        src = tymod.constants.get(name) if name else None
+        src = follow_constant(repo, tymod, name) if name else None
         # the value must be bound to type(<builtin singleton>) whose __name__ is the key (platform table)
         real = None
         if src is not None and isinstance(src, ast.Call) and dotted(src.func) == "type" and len(src.args) == 1:
